@@ -7,7 +7,7 @@ from vlib import tdgen
 ID = "C08"
 NEEDS_CLI = True
 RULE = ("ops td.hash <document> -> (domain separator, message hash, digest), td.encode_type <types> <name> (hook), td.kind <type string> (hook): "
-        "random type graphs (1..6 structs, members in random order, shared and repeated dependencies, self/mutual recursion through arrays, "
+        "name order: pairs of referenced types where one name is a proper prefix of the other and continues with each printable ASCII character, names differing in case / digits / underscore, non-ASCII names whose UTF-8 and UTF-16 orders differ; random type graphs (1..6 structs, members in random order, shared and repeated dependencies, self/mutual recursion through arrays, "
         "multi-dimensional fixed/dynamic arrays, every atomic type; primary type = first struct, any other struct, or EIP712Domain itself with a message of its own; EIP712Domain as a member type), values generated type-directed so documents are accepted; every permutation of "
         "member order for dependency-bearing structs of <= 4 members; all atomic type strings; the three repo fixtures; sequences in one thread (op seq) of documents whose primary type is spelt identically while a dependency is defined differently; equivalent JSON spellings of a sample (white space, \\uXXXX escapes in keys, type strings, values); "
         "a random sample of the cases is re-run through every sub-command that reaches the same code (vlib/routes.py); non-trivial = distinct document whose primary type has >= 1 struct dependency; judge = executable EIP-712 spec (Spec.Eip712)")
@@ -62,6 +62,36 @@ def gen(rng, tier):
             doc["message"] = tdgen.rand_value(rng, t2, prim)
             tag = "domain-as-member"
         cases.append(Case("td.hash " + hx(tdgen.dumps(doc)), tags=("random", tag)))
+    # NAME ORDER of the referenced types: the order is that of the names, not of anything derived from them (not of
+    # "Name(" strings, not case-folded, not by length, not by code units).  Pairs where one name is a proper prefix of the
+    # other and the next character is any printable ASCII character (those below "(" — space ! " # $ % & ' — sort a
+    # "Name(…" string the other way round), names that differ in case only, digits, underscore, non-ASCII names whose
+    # UTF-8 and UTF-16 orders differ
+    conts = [chr(c) for c in range(0x20, 0x7f) if chr(c) not in "[]"]
+    for c in conts:
+        for stem in (("Safe",) if tier != "thorough" else ("Safe", "a", "Z9")):
+            longer = stem + c + "M"
+            g = {"P": [("a", longer), ("b", stem)], stem: [("x", "uint8")], longer: [("y", "bool")]}
+            if rng.random() < 0.5:
+                g["P"].reverse()
+            tj = tdgen.dumps(tdgen.types_json(g, [("name", "string")]))
+            cases.append(Case("td.encode_type %s %s" % (hx(tj), hx("P")), tags=("name-order", "prefix-pair")))
+            try:
+                msg = {"a": {"y": True}, "b": {"x": 1}}
+                doc = {"types": tdgen.types_json(g, [("name", "string")]), "primaryType": "P", "domain": {"name": "n"}, "message": msg}
+                cases.append(Case("td.hash " + hx(tdgen.dumps(doc)), tags=("name-order", "prefix-pair")))
+            except Exception:
+                pass
+    for names in (["a", "A", "b", "B", "_", "0", "9", "Z", "z"], ["Aa", "AA", "aA", "aa", "A_", "A0"], ["É", "é", "Z", "z", "E", "e"],
+                  ["\uff5e", "\U00010000", "\ue000", "\ud7ff", "z"], ["Ab", "A", "Abc", "B", "AB"], ["x10", "x9", "x1", "x01", "x2"]):
+        g = {"P": [("m%d" % i, nm) for i, nm in enumerate(names)]}
+        rng.shuffle(g["P"])
+        for nm in names:
+            g[nm] = [("v", "uint8")]
+        tj = tdgen.dumps(tdgen.types_json(g, [("name", "string")]))
+        cases.append(Case("td.encode_type %s %s" % (hx(tj), hx("P")), tags=("name-order", "name-set")))
+        doc = {"types": tdgen.types_json(g, [("name", "string")]), "primaryType": "P", "domain": {"name": "n"}, "message": {m: {"v": 1} for m, _ in g["P"]}}
+        cases.append(Case("td.hash " + hx(tdgen.dumps(doc)), tags=("name-order", "name-set")))
     # member-order permutations: the dependency witness (B[] b, A a, A a2) and friends
     base = {"A": [("x", "uint8")], "B": [("y", "bool"), ("c", "C")], "C": [("z", "string")]}
     members = [("b", "B[]"), ("a", "A"), ("a2", "A"), ("s", "string")]
